@@ -48,6 +48,20 @@ PoolSets ==
      \cup {Filter(pa, <<p>>, <<>>) : p \in {R1("child", NTAny), Call("not", <<R1("child", NTAny)>>)},
           pa \in {Path(FALSE, <<Step("child", NTAny, <<>>), Step("child", NTAny, <<>>)>>), R1("descendant", NTAny)}} >>
 
+\* part 5: position() / last() in the FIRST predicate (sibling scans with the host step's node test)
+CmpOpsVM == {"=", "!=", "<", "<=", ">", ">="}
+PosF == Call("position", <<>>)
+LastF == Call("last", <<>>)
+PosAtomsVM == {Bin(op, PosF, NumL(k)) : op \in CmpOpsVM, k \in 1 .. 2} \cup {Bin(op, PosF, LastF) : op \in CmpOpsVM}
+              \cup {LastF, Bin("-", LastF, NumL(1)), Bin("=", PosF, Bin("-", LastF, NumL(1))), Call("not", <<Bin("=", PosF, NumL(1))>>),
+                    Bin("or", Bin("=", PosF, NumL(1)), Bin("=", PosF, LastF)), Bin("and", Bin(">", PosF, NumL(1)), Bin("<", PosF, LastF))}
+HostsNamed(ps) == {Path(FALSE, <<Step("child", NTName("a"), ps)>>), Path(TRUE, <<DosN, Step("child", NTName("a"), ps)>>),
+                   Path(FALSE, <<Step("child", NTAny, <<>>), Step("child", NTText, ps)>>)}
+PoolPart5 == UNION {HostsOf(<<p>>) \cup HostsNamed(<<p>>) : p \in PosAtomsVM}
+             \cup UNION {HostsOf(<<p, q>>) \cup HostsNamed(<<p, q>>) : p \in {Bin("=", PosF, NumL(2)), LastF, Bin("<", PosF, LastF)},
+                                          q \in {R1("child", NTAny), Call("not", <<R1("child", NTAny)>>)}}
+AllPools == PoolSets \o <<PoolPart5>>
+
 NewNodes(d) ==
     UNION { {Node("elem", n, "", "", p, "") : n \in ElemNames} \cup {Node("text", "", "", "", p, v) : v \in TextVals} : p \in Ids(d) }
 
@@ -65,7 +79,7 @@ PickPart ==
     /\ UNCHANGED <<doc, grow, expr>>
 PickExpr ==
     /\ part > 0 /\ expr = NoExpr
-    /\ \E e \in PoolSets[part] : expr' = e
+    /\ \E e \in AllPools[part] : expr' = e
     /\ part' = 0 /\ UNCHANGED <<doc, grow>>
 Next == AddNode \/ PickPart \/ PickExpr
 Spec == Init /\ [][Next]_vars
@@ -78,7 +92,8 @@ Runs == LET g == Env(doc) IN [i \in 1 .. Len(doc) |-> RunAll2(expr, g, i)]
 RECURSIVE ClaimedSteps(_)
 ClaimedSteps(steps) ==
     \A i \in 1 .. Len(steps) :
-       \A k \in 1 .. Len(steps[i].preds) : steps[i].preds[k].t = "num" => (k = 1 /\ steps[i].ax = "child")
+       \A k \in 1 .. Len(steps[i].preds) : Positional(steps[i].preds[k]) /\ ~(steps[i].preds[k].t = "call" /\ steps[i].preds[k].f = "not" /\ ~UsesPos(steps[i].preds[k]))
+                                               => (k = 1 /\ steps[i].ax = "child")
 Claimed(e) == IF e.t = "path" THEN ClaimedSteps(e.steps) ELSE TRUE
 
 VM2Refines ==
